@@ -130,3 +130,62 @@ func VerifC13GroupSubscribe() {
 	}
 	vCover("done")
 }
+
+// VerifC13Concurrent: two group subscribes (any epochs, same or different
+// consumer ids) run as goroutines under the exploring scheduler (pre-emption
+// bound from the parameters). When both have returned, at most one of the
+// subscriptions they obtained is still active, the partition's group entry
+// names exactly that one, and a refused subscriber carried an older epoch than
+// the accepted one.
+func VerifC13Concurrent() {
+	dir := vTempDir()
+	srv := vMkServer(dir)
+	p := vMkPartition(srv, dir+"/p")
+	ids := []string{"c1", "c2"}
+	type res struct {
+		sub   *subscription
+		ok    bool
+		epoch uint64
+	}
+	var r [2]res
+	done := make(chan int, 2)
+	for i := 0; i < 2; i++ {
+		r[i].epoch = vNondetUint64("epoch")
+	}
+	id0, id1 := ids[vChoose(2)], ids[vChoose(2)]
+	vSchedExplore(vParam("preemptions", 1))
+	for i, id := range []string{id0, id1} {
+		i, id := i, id
+		go func() {
+			sub, st := p.Subscribe(context.Background(), &client.SubscribeRequest{Stream: "s", StartPosition: client.StartPosition_NEW_ONLY,
+				Consumer: &client.Consumer{GroupId: "g", ConsumerId: id, GroupEpoch: r[i].epoch}})
+			r[i].sub, r[i].ok = sub, st == nil
+			done <- i
+		}()
+	}
+	<-done
+	<-done
+	vSchedExplore(0)
+	vYield()
+	active := 0
+	var live *subscription
+	for i := range r {
+		if r[i].ok && !vIsClosed(r[i].sub) {
+			active++
+			live = r[i].sub
+		}
+	}
+	vAssert(active <= 1, "at most one subscription of the group is active after concurrent subscribes")
+	vAssert(r[0].ok || r[1].ok, "at least one of two concurrent group subscribers is accepted")
+	gm := p.GetGroupConsumer("g")
+	if active == 1 {
+		vAssert(gm != nil && gm.sub == live, "the partition's group entry names the active subscription")
+	}
+	for i := range r {
+		if !r[i].ok {
+			vAssert(r[1-i].ok && r[1-i].epoch > r[i].epoch, "a refused subscriber carried an older group epoch than the accepted one")
+			vCover("one-refused")
+		}
+	}
+	vCover("done")
+}
